@@ -241,6 +241,10 @@ func runCase(rep *core.Report, c tcase, l sim.Layout, seed int64) {
 		case "dropped":
 			conn.Close()
 			must(n1.Connect("db", 52).RemoveDB(), "drop")
+		case "rb_open_tx":
+			// a connection is in the middle of a write transaction (it commits while the import waits)
+			pl := sim.Plan{Kind: "j", Ns: 2, M: []int{1, 2}, Out: "commit", Fin: "DELETE", V: 3}
+			must(firstErr(func() error { return pg.BeginJ(pl) }, pg.JCreate, pg.JSync, func() error { return pg.JPage(1) }, func() error { return pg.JPage(2) }), "open transaction")
 		case "rb_hot_journal":
 			// an application dies in the middle of a transaction: its locks go, the hot journal stays
 			pl := sim.Plan{Kind: "j", Ns: 2, M: []int{1, 2}, Out: "commit", Fin: "DELETE", V: 3}
@@ -248,7 +252,7 @@ func runCase(rep *core.Report, c tcase, l sim.Layout, seed int64) {
 			conn.Close()
 		}
 	}
-	if db := n1.Store.DB("db"); db != nil && db.Pos().TXID > 0 && c.Target != "rb_hot_journal" {
+	if db := n1.Store.DB("db"); db != nil && db.Pos().TXID > 0 && c.Target != "rb_hot_journal" && c.Target != "rb_open_tx" {
 		must(cl.WaitPos("n2", "db", db.Pos(), 20*time.Second), "replica catch-up")
 	}
 	// the committed image before the import, as a restart would see it
@@ -262,7 +266,7 @@ func runCase(rep *core.Report, c tcase, l sim.Layout, seed int64) {
 	// ---- export of the current state equals the committed image ----
 	rmu.Lock()
 	defer rmu.Unlock()
-	if hasPages && c.Target != "rb_hot_journal" {
+	if hasPages && c.Target != "rb_hot_journal" && c.Target != "rb_open_tx" {
 		rep.Eval(1)
 		var buf bytes.Buffer
 		pos, eerr := n1.Store.DB("db").Export(context.Background(), &buf)
@@ -298,6 +302,17 @@ func runCase(rep *core.Report, c tcase, l sim.Layout, seed int64) {
 		input = nil
 	}
 	var ierr error
+	writerDone := make(chan error, 1)
+	if c.Target == "rb_open_tx" {
+		go func() {
+			time.Sleep(150 * time.Millisecond) // the import is waiting for the write lock by now
+			err := pg.JFinal()
+			pg.EndJ()
+			writerDone <- err
+		}()
+	} else {
+		writerDone <- nil
+	}
 	pn := core.Try(func() {
 		if c.Iface == "http" {
 			ierr = lhttp.NewClient().Import(context.Background(), n1.URL, "db", bytes.NewReader(input))
@@ -309,6 +324,9 @@ func runCase(rep *core.Report, c tcase, l sim.Layout, seed int64) {
 			}
 		}
 	})
+	if werr := <-writerDone; werr != nil {
+		core.Infra("the open transaction could not commit [%s]: %v", c.key(), werr)
+	}
 	rep.Case(c.key()+"/"+l.Name+fmt.Sprint(l.PageSize), hasPages || len(input) > 0)
 	rep.TracesValidated++
 	rep.Eval(4)
@@ -344,6 +362,9 @@ func runCase(rep *core.Report, c tcase, l sim.Layout, seed int64) {
 		var bt, at uint64
 		fmt.Sscanf(before.Pos, "%x/", &bt)
 		fmt.Sscanf(after.Pos, "%x/", &at)
+		if c.Target == "rb_open_tx" {
+			bt++ // the transaction that was open committed first
+		}
 		if at != bt+1 {
 			rep.Violate("C16.one-new-transaction", "txid-delta/"+shape, detail, map[string]any{"case": c})
 		}
